@@ -1,6 +1,7 @@
 /* Lock-step harness for include/fiber_signal.h (fiber_signal_wait / _raise) on
  * the T1 machine (C11).  Header-only code: compiled into this file.
- * Cells: 500 = s->waiter; 520+t = fiber t's scratch field; 200+t = state.
+ * Locations (coq/ChanK.v): 503 = s->waiter; 502+4t = fiber t's scratch field;
+ * 200+t = fiber t's state.  Fibers print as 1000+t, READY_TO_WAKE/RAISED as -1.
  * Ops: (1,_) fiber_signal_wait   (2,_) fiber_signal_raise.
  * Ret of call k (loc k+1, kind 909): wait -> 0, raise -> its return value. */
 #include "harness.h"
@@ -29,10 +30,10 @@ static void h_run_case(hcase_t* c) {
   for (int t = 0; t < n; t++) {
     fiber_t* f = t1_fiber_of(t);
     rt_reg((void*)&f->state, 4, 200 + t, 4);
-    rt_reg((void*)&f->scratch, 8, 520 + t, 8);
+    rt_reg((void*)&f->scratch, 8, 502 + 4 * t, 8);
     rt_name(f, sizeof *f, 1000 + t, sizeof *f);
   }
-  rt_reg((void*)&sig.waiter, 8, 500, 8);
+  rt_reg((void*)&sig.waiter, 8, 503, 8);
   t1_run(n, prog, c->sched, c->nsched, dmax);
   rt_print_trace();
 }
